@@ -3,6 +3,7 @@
 //!   reg mismatch <RP|RS|RR|RQ> <RP|RS|RR|RQ>  register the first role on a fresh topic, then the second on the same
 //!   reg abuse <RP|RQ|RR> <frame>;<frame>…    register in that role, then send those frames; afterwards the topic
 //!                                            must still serve well-behaved library clients
+//!   reg pipeline <RP|RQ>                     first frames sent in the same write as the registration
 //!   reg mute                                 a peer that grants no stream credit registers (wrong pattern, invalid name, valid)
 //!   reg abandon <role> <n>                   n registrations whose peer stops reading before it registers and then leaves
 //!   reg stall <n>                            a subscriber on topic A that never reads, > 1.25 MB published to A,
@@ -328,6 +329,59 @@ async fn run_case(addr: SocketAddr, certs: &Certs, t: &[&str]) -> anyhow::Result
             drop(subs);
             Ok(format!("{} a={} b={} probe=ok", answers.join(" "), seen[0], seen[1]))
         }
+        "pipeline" => {
+            // a peer that does not wait for the acknowledgement: its first frames follow the registration in the same write
+            // (they may sit in the server's read buffer when the registration is decoded). Nothing of them may be lost.
+            use tokio_util::codec::Encoder;
+            let enc = |frames: Vec<Frame>| -> bytes::BytesMut { let mut b = bytes::BytesMut::new(); for f in frames { selium_protocol::MessageCodec.encode(f, &mut b).expect("encode"); } b };
+            let msg = |t: &str, h: Option<std::collections::HashMap<String, String>>| Frame::Message(MessagePayload { headers: h, message: bytes::Bytes::from(t.to_string()) });
+            let (ns, tp) = fresh();
+            let conn = raw(addr, certs).await?;
+            let out = if t[2] == "RP" {
+                let mut sub = raw_stream(&conn).await?;
+                sub.send(reg_frame("RS", &ns, &tp)).await?;
+                let a0 = answer(&mut sub).await;
+                tokio::time::sleep(Duration::from_millis(60)).await;
+                let (mut send, recv) = conn.open_bi().await?;
+                // … and the write ends in the middle of a frame, whose rest follows once the server has had time to answer
+                let second = enc(vec![msg("second", None)]);
+                let mut head = enc(vec![reg_frame("RP", &ns, &tp), msg("first", None)]);
+                head.extend_from_slice(&second[..4]);
+                send.write_all(&head).await?;
+                tokio::time::sleep(Duration::from_millis(200)).await;
+                send.write_all(&second[4..]).await?;
+                let mut p = selium_protocol::BiStream::from((send, recv));
+                let a = answer(&mut p).await;
+                p.send(msg("third", None)).await?;
+                p.send(msg("fourth", None)).await?;
+                let mut got = vec![];
+                while got.len() < 4 { match tokio::time::timeout(Duration::from_millis(1200), sub.next()).await { Ok(Some(Ok(Frame::Message(m)))) => got.push(String::from_utf8_lossy(&m.message).to_string()), _ => break } }
+                format!("{a0} {a} got={}", if got.is_empty() { "-".to_string() } else { got.join("+") })
+            } else {
+                // a requestor that pipelines its first request behind the registration, against a library replier
+                let client = client(addr, certs, BackoffStrategy::constant().with_max_attempts(0)).await?;
+                let topic = format!("/{ns}/{tp}");
+                let c2 = client.clone(); let t2 = topic.clone();
+                let rep = tokio::spawn(async move {
+                    let mut replier = c2.replier(&t2).with_request_decoder(StringCodec).with_reply_encoder(StringCodec)
+                        .with_handler(|req: String| async move { Ok::<_, anyhow::Error>(format!("r:{req}")) }).open().await?;
+                    replier.listen().await
+                });
+                tokio::time::sleep(Duration::from_millis(120)).await;
+                let hdr = |id: u32| Some([("req_id".to_string(), id.to_string())].into_iter().collect());
+                let (mut send, recv) = conn.open_bi().await?;
+                send.write_all(&enc(vec![reg_frame("RQ", &ns, &tp), msg("first", hdr(0)), msg("second", hdr(1))])).await?;
+                let mut q = selium_protocol::BiStream::from((send, recv));
+                let a = answer(&mut q).await;
+                q.send(msg("third", hdr(2))).await?;
+                let mut got = vec![];
+                while got.len() < 3 { match tokio::time::timeout(Duration::from_millis(1500), q.next()).await { Ok(Some(Ok(Frame::Message(m)))) => got.push(String::from_utf8_lossy(&m.message).to_string()), _ => break } }
+                rep.abort();
+                got.sort();
+                format!("Ok {a} got={}", if got.is_empty() { "-".to_string() } else { got.join("+") })
+            };
+            Ok(format!("{out} probe=ok"))
+        }
         "mute" => {
             // a peer that grants the server no credit on its streams (it never reads) and so can take no answer: whatever it
             // registers as - a role the topic does not have, an invalid name, a perfectly good subscriber - the answer meant for
@@ -482,6 +536,8 @@ pub fn run(cfg: &Cfg) {
         for first in ["RP", "RR"] { for second in ["pub", "sub", "req"] { cases.push(format!("reg lib {first} {second}")); } }
         for role in ["RR", "RQ", "RP", "RS"] { cases.push(format!("reg abandon {role} 3")); }
         cases.push("reg mute".into());
+        cases.push("reg pipeline RP".into());
+        cases.push("reg pipeline RQ".into());
         cases.push("reg stall 130".into());
         cases.push("reg stall 420".into());
         // isolation between names that are close to each other: the same text with the separator elsewhere, swapped
@@ -524,7 +580,7 @@ pub fn run(cfg: &Cfg) {
                 let tag = if t[1] == "stall" || t[1] == "mute" { "C11/C17" } else if t[1] == "abandon" && t[2] == "RR" { "C10/C11" } else { "C11" };
                 if !probe_ok { dead = line.contains("hang"); m = Err(format!("{tag}: after `{}` well-behaved clients are no longer served: {line}", t[1..].join(" ").chars().take(80).collect::<String>())); }
                 if m.is_ok() {
-                    let answers: Vec<&str> = line.split(' ').filter(|x| !x.starts_with("probe=") && !x.starts_with("queued-peer=") && !x.starts_with("blocked-publisher=") && !x.starts_with("other-names=") && !x.starts_with("queued-peer-later=") && !x.starts_with("a=") && !x.starts_with("b=") && !x.starts_with("lib=")).collect();
+                    let answers: Vec<&str> = line.split(' ').filter(|x| !x.starts_with("probe=") && !x.starts_with("queued-peer=") && !x.starts_with("blocked-publisher=") && !x.starts_with("other-names=") && !x.starts_with("queued-peer-later=") && !x.starts_with("a=") && !x.starts_with("b=") && !x.starts_with("got=") && !x.starts_with("lib=")).collect();
                     for a in &answers {
                         if *a == "timeout" { m = Err(format!("C11: a stream was neither served nor refused nor closed: {line}")); }
                     }
@@ -534,6 +590,10 @@ pub fn run(cfg: &Cfg) {
                         if l <= max && !line.contains(" sent ") { m = Err(format!("C05/C11: a frame of payload length {l} <= limit was refused by the encoder: {line}")); }
                         if t[2] == "RP" && l <= max && !line.contains(&format!("got={},5 ", l - 9)) { m = Err(format!("C11/C03: a publisher's frame within the limit (payload length {l}) did not reach the subscriber, or took the following message with it: {line}")); }
                         if t[2] == "RQ" && !line.contains("after=len5") { m = Err(format!("C11: after a request of payload length {l} the next request on the same stream was not answered: {line}")); }
+                    }
+                    if t[1] == "pipeline" {
+                        let want = if t[2] == "RP" { "got=first+second+third+fourth" } else { "got=r:first+r:second+r:third" };
+                        if !line.contains(want) { m = Err(format!("{}: frames sent in the same write as the registration (before its acknowledgement) were lost or reordered: {line}", if t[2] == "RP" { "C01/C11" } else { "C02/C11" })); }
                     }
                     if t[1] == "lib" {
                         let same = (t[2] == "RP") == (t[3] == "pub" || t[3] == "sub");
